@@ -44,12 +44,13 @@ Tiny  == { B(0, 0, 8, 6, 0, 1), B(0, 0, 6, 4, 0, 0), B(1, 1, 4, 3, 0, 0), B(2, 0
 Boxes == IF Alpha = "full" THEN Full ELSE IF Alpha = "small" THEN Small ELSE Tiny
 
 Thrs == IF Grid = "full" THEN {<<1, 10>>, <<3, 10>>, <<1, 2>>, <<7, 10>>, <<9, 10>>} ELSE {<<3, 10>>, <<7, 10>>}
-(* score patterns by position (hundredths; -1 = no score) with their score thresholds:
+(* score patterns by position (hundredths; NoScore = no score; zero and negative scores are scores like any other) with their score thresholds:
    none / below / equal to a score / inside / above the score range.  Heights rank as 50 h = 100 .. 400 *)
 Configs ==
-  {<<p, s>> : p \in {<<-1, -1, -1, -1>>}, s \in {-1, 90}} \cup
-  {<<p, s>> : p \in {<<20, 40, 60, 80>>}, s \in {-1, 10, 40, 50, 90}} \cup
-  {<<p, s>> : p \in {<<-1, 130, -1, 70>>, <<170, -1, 250, -1>>}, s \in {-1, 130, 300}}
+  {<<p, s>> : p \in {<<NoScore, NoScore, NoScore, NoScore>>}, s \in {NoScore, 90}} \cup
+  {<<p, s>> : p \in {<<20, 40, 60, 80>>}, s \in {NoScore, 10, 40, 50, 90}} \cup
+  {<<p, s>> : p \in {<<NoScore, 130, NoScore, 70>>, <<170, NoScore, 250, NoScore>>}, s \in {NoScore, 130, 300}} \cup
+  {<<p, s>> : p \in {<<0, -40, 60, -120>>, <<-30, 0, -250, NoScore>>}, s \in {NoScore, -300, -40, 0}}
 
 Case(dets, thr, sthr) ==
   [kind |-> "nms", dets |-> dets, thr |-> thr, sthr |-> sthr,
@@ -79,7 +80,7 @@ SimMax == 40
 ScoreSpace == {5 * i : i \in 1..160}
 SimNext ==
   \/ /\ stage = 0 /\ stage' = 1
-     /\ \E m \in {"none", "scored", "mixed"}, thr \in Thrs, st \in {-1, 60, 150, 900} :
+     /\ \E m \in {"none", "scored", "mixed"}, thr \in Thrs, st \in {NoScore, 60, 150, 900} :
           c' = [mode |-> m, thr |-> thr, sthr |-> st, dets |-> <<>>, ranks |-> {}, ph |-> 0, b |-> B(0, 0, 0, 0, 0, 0)]
   \/ /\ stage = 1 /\ Len(c.dets) < SimMax /\ stage' = 1
      /\ \/ /\ c.ph = 0 /\ \E x \in -60..60 : c' = [c EXCEPT !.ph = 1, !.b.x = x]
@@ -87,7 +88,7 @@ SimNext ==
         \/ /\ c.ph = 2 /\ \E w \in 0..24, k \in 0..4 : c' = [c EXCEPT !.ph = 3, !.b.w = w, !.b.k = IF k = 4 THEN 0 ELSE k, !.b.na = IF k = 4 THEN 1 ELSE 0]
         \/ /\ c.ph = 3 /\ \E h \in 0..(IF c.mode = "none" THEN 48 ELSE 16) : c' = [c EXCEPT !.ph = 4, !.b.h = h]
         \/ /\ c.ph = 4
-           /\ \E sc \in (IF c.mode = "scored" THEN {} ELSE {-1}) \cup (IF c.mode = "none" THEN {} ELSE ScoreSpace) :
+           /\ \E sc \in (IF c.mode = "scored" THEN {} ELSE {NoScore}) \cup (IF c.mode = "none" THEN {} ELSE ScoreSpace) :
                 LET d == [box |-> c.b, score |-> sc] IN
                 /\ Valid(d) => Rank(d) \notin c.ranks
                 /\ c' = [c EXCEPT !.ph = 5, !.dets = Append(@, d), !.ranks = IF Valid(d) THEN @ \cup {Rank(d)} ELSE @]
